@@ -82,6 +82,8 @@ structure St where
   lsrcsDone : List (List LBatch) := []                 -- completed live sources (reversed, each reversed)
   lpN : Nat := 0                                       -- `lp` lines judged so far in this case
   lpBrs : List String := []
+  fault : Option (Nat × Nat) := none                   -- fault mode: the first recording fails after j records + off bytes
+  faultBrs : List String := []
 
 def parseDimTok (t : String) : Option (Bool × List Bytes) :=
   match t.splitOn ":" with
@@ -154,16 +156,6 @@ def judgeStream (st : St) (obs : List String) : Verdict := Id.run do
   let nonUTC := items.any (·.2.2.2.2)
   let F := mkCodec (st.oracle ++ items.flatMap (·.2.2.2.1))
   let mult := multOf st.prec
-  -- 0. the writer: the bytes the real `WritePointForRecording` produced for every point = the model's frame, byte for byte
-  let mut wi := 0
-  for (p, w) in recorded.zip st.wire.reverse do
-    match w with
-    | some w =>
-      let mw := (frameOf F mult p).bytes
-      if mw != w then
-        return .mismatch s!"writer: point {wi}: model frame {mw.length} bytes, real writer {w.length} bytes, first-diff {firstDiff mw w}"
-    | none => if !st.live then return .badop s!"point {wi} without the written bytes"
-    wi := wi + 1
   -- 1. the property on the observed deliveries (a live replay records nothing: no deviation clause applies)
   let dev := if st.live then none else firstDev recorded 0
   -- precision coarser than ns truncates on purpose: compare against the truncated times
@@ -178,10 +170,20 @@ def judgeStream (st : St) (obs : List String) : Verdict := Id.run do
       match specStreamDev st.recTime recordedP recGroups o k key with
       | some c2 => return .specfail c2 s!"deviation {key} at point {k} does not explain: status={statusStr status} items={items.length}"
       | none => known := some key
+  -- 1b. the writer (tie): the bytes the real `WritePointForRecording` produced for every point = the model's frame, byte for byte
+  let mut wi := 0
+  for (p, w) in recorded.zip st.wire.reverse do
+    match w with
+    | some w =>
+      let mw := (frameOf F mult p).bytes
+      if mw != w then
+        return .mismatch s!"writer: point {wi}: model frame {mw.length} bytes, real writer {w.length} bytes, first-diff {firstDiff mw w}"
+    | none => if !st.live then return .badop s!"point {wi} without the written bytes"
+    wi := wi + 1
   -- 2. the tie: model = observed
   let m := if st.live then liveStreamReplay st.zero st.recTime recorded else streamRoundTrip F mult st.zero st.recTime recorded
   let obsItems : List SOut := items.map (fun it => ⟨it.1, it.2.2.1.getD 0⟩)
-  let mut brs : List String := ["stream"] ++ (if st.live then ["live-chan"] else if st.file then ["file-srpl"] else ["io-buffer"]) ++ shiftBr st.recTime st.zero (recorded.head?.map (·.time))
+  let mut brs : List String := ["stream"] ++ st.faultBrs ++ (if st.live then ["live-chan"] else if st.file then ["file-srpl"] else ["io-buffer"]) ++ shiftBr st.recTime st.zero (recorded.head?.map (·.time))
   let exact := m.status == status && m.items == obsItems && m.closes == closes && m.closedAt == closedAt
         && items.all (fun it => it.2.2.1.isSome) && !nonUTC
         && items.all (fun it => it.2.1 == (([] : Bytes), false, ([] : List Bytes)))
@@ -223,7 +225,8 @@ def judgeStream (st : St) (obs : List String) : Verdict := Id.run do
     let tie := if brs.contains "dev-exact" then "model=observed" else "model=observed-on-the-prefix-only"
     return .known key s!"first affected point {(dev.map (·.1)).getD 0}; status={statusStr status} delivered={items.length}/{recorded.length}; {tie}; frames={fs.length}"
   | none =>
-    let nt := recorded.length ≥ 2 && (brs.contains "key-escapes" || brs.contains "string-escapes" || brs.contains "int-beyond-2^53")
+    let nt := (recorded.length ≥ 2 && (brs.contains "key-escapes" || brs.contains "string-escapes" || brs.contains "int-beyond-2^53"))
+      || (brs.contains "after-failed-recording" && !brs.contains "fault-never-reached" && recorded.length ≥ 1)
     return .ok nt brs
 
 /-- One parsed batch source of the observation: `S <closes> <closedAt> <n> <item>*`. -/
@@ -499,6 +502,35 @@ def judge (_id : String) (lines : Array String) : Verdict := Id.run do
         st := { st with mode := "lp", lpN := st.lpN + 1, lpBrs := bb }
     | ["lpend"] =>
       return .ok (st.lpN ≥ 2 && st.lpBrs.contains "lp-point") (["lp-parser"] ++ st.lpBrs)
+    | ["stream", r, z, p, "fault", j, off] =>
+      let some z := z.toInt? | return .badop l
+      let some j := j.toNat? | return .badop l
+      let some off := off.toNat? | return .badop l
+      if p != "n" then return .badop s!"fault cases are recorded with precision n: {l}"
+      st := { st with mode := "stream", recTime := r == "1", zero := z, prec := p, fault := some (j, off) }
+    | ["cut"] =>
+      -- end of the FAILED first recording: what its sink took must be a prefix of what was recorded into it (spec), and
+      -- exactly what the model's writer leaves in a sink with that much room (tie)
+      let some (j, off) := st.fault | return .badop "cut outside a fault case"
+      let some acc := obs.head?.bind bytesTok | return .badop s!"cut observation {l}"
+      let F := mkCodec st.oracle
+      let fsA := st.pts.reverse.map (frameOf F 1)
+      let whole := writeFrames fsA
+      if !(acc.isPrefixOf whole) then
+        return .specfail "failed-recording-holds-a-prefix" s!"the failed recording holds {acc.length} bytes that are not a prefix of the {whole.length} bytes recorded into it, first-diff {firstDiff acc whole}"
+      let k := (writeFrames (fsA.take j)).length + off
+      let m := (recordInto ⟨[], some k⟩ fsA).out
+      if m != acc then return .mismatch s!"failing writer: model sink holds {m.length} bytes, real sink {acc.length} (room {k})"
+      let bounds := (List.range (fsA.length + 1)).map (fun i => (writeFrames (fsA.take i)).length)
+      let hdr := (List.range fsA.length).any (fun i => match fsA[i]? with
+        | some f => (writeFrames (fsA.take i)).length < k && k < (writeFrames (fsA.take i)).length + f.db.length + f.rp.length + 2
+        | none => false)
+      let cls := if k == 0 then "fault-before-first-record" else if k ≥ whole.length then "fault-never-reached"
+        else if bounds.contains k then "fault-between-records" else if bounds.contains (k + 1) then "fault-before-last-LF"
+        else if hdr then "fault-inside-db-rp" else "fault-inside-line"
+      let piled := fsA.length - (bounds.filter (fun b => b ≤ k)).length + 1
+      st := { st with pts := [], pgroups := [], wire := [], fault := none,
+                      faultBrs := ["after-failed-recording", cls] ++ (if k < whole.length && piled ≥ 2 then ["records-piled-up-behind-fault"] else []) }
     | ["stream", r, z, p, "file"] =>
       let some z := z.toInt? | return .badop l
       if p != "n" then return .badop s!"recording files are written with precision n: {l}"
@@ -539,6 +571,7 @@ def judge (_id : String) (lines : Array String) : Verdict := Id.run do
       if obs.head? == some "fileerr" then return .specfail "replay-succeeds" "the recording file could not be written or opened by the service's writers/readers"
       if obs.head? == some "hang" then return .specfail "ends-after-last" "the replay did not finish (hang)"
       if obs.head? == some "panic" then return .specfail "replay-succeeds" "the replay panicked"
+      if st.fault.isSome then return .badop "fault case without cut"
       if st.mode == "batch" && st.live then
         let ls := (st.lsrcsDone.reverse ++ [st.lbs]).map (·.reverse)
         let gs := (st.srcsDone.reverse ++ [(st.bs, st.bgroups)]).map (·.2.reverse)
